@@ -143,12 +143,15 @@ def writeFile {Code : Type} (store : List (String × Code)) (fn : String) (data 
 
 /-- `compile_templates` with `ignore_errors=True` (environment.py:875-891): every listed template that compiles is written
     under its module file name; the others are skipped -/
+def compileStep {Code : Type} (sha1 : String → String) (compile : String → Compiled Code) (store : List (String × Code))
+    (n : String) : List (String × Code) :=
+  match compile n with
+  | .ok code => writeFile store (moduleFilename sha1 n) code
+  | .error _ => store
+
 def compileTemplates {Code : Type} (sha1 : String → String) (compile : String → Compiled Code) (names : List String) :
     List (String × Code) :=
-  names.foldl (fun store n =>
-    match compile n with
-    | .ok code => writeFile store (moduleFilename sha1 n) code
-    | .error _ => store) []
+  names.foldl (compileStep sha1 compile) []
 
 inductive LoadResult (Code : Type) where
   | template (code : Code)
